@@ -40,6 +40,10 @@ def budgets(tier):
 def generate(rng, tier, idx):
     w = gen_world(rng, n_models=(1, 6), n_wav=(5, 14), n_filters=(1, 4), n_ap=(2, 4), n_par=(1, 2), allow_zero_band=True)
     w['ext_n'] = rng.choice([3, 8, 40])
+    if rng.random() < 0.03:
+        # a grid with more models than any plausible internal block size (cube format keeps this cheap)
+        w.update(format=2, n_models=rng.choice([1100, 2100]), n_wav=6, asc_per_file=None, mixed=None, zero_band=None, gz=False, subdir=0)
+        w['flux_unit'] = 'mJy' if w['flux_unit'] not in ('mJy', 'Jy') else w['flux_unit']
     nf = len(w['filters'])
     nsrc = rng.randint(1, 12) if rng.random() < 0.5 else rng.randint(1, 4)
     sources = [gen_source(rng, nf, 's%02d' % i) for i in range(nsrc)]
